@@ -39,6 +39,11 @@ WITNESSES = [
     # stop() and then a completing wake while the loop waits: block_on must return None, the future is not polled again
     case_text("stop_then_completing_wake_while_waiting", "blockon", ["stop ; complete ; wake"], [0] * 8 + [1] * 8 + [0] * 12),
     case_text("self_wake_twice", "blockon", ["complete"], [0] * 26 + [1] + [0] * 10, selfwake=2),
+] + [
+    # a future that wakes itself inside every poll, and a stop request that lands somewhere along the chain: block_on
+    # goes through its stop check between two polls and returns None
+    case_text("stop_along_self_wake_chain_%d" % k, "blockon", ["stop ; wakeup"], [0] * k + [1] * 8 + [0] * 60, selfwake=5)
+    for k in (5, 7, 9, 11, 14, 18, 23)
 ]
 
 
@@ -86,6 +91,7 @@ def spec_c11(case, trace):
     fready_stored = False    # block_on: a waker store not yet followed by a poll
     last_polls = 0
     need_sample, stop_at_iter_start = False, False
+    polls_after_stop = 0
     steps = [l.split() for l in trace if l.startswith("step ")]
     for w in steps:
         t, label = int(w[1]), w[2]
@@ -99,6 +105,13 @@ def spec_c11(case, trace):
             return "stop() had completed before this iteration of block_on began, yet the future was polled again (it may complete: Some instead of None)"
         if t == 0 and label in ("run.reset", "run.iter_end"):
             need_sample = True
+        if polls > last_polls and t == 0 and mode == "blockon" and stop_done:
+            # after stop() has completed the iteration in progress may still poll the future — once; the next
+            # iteration begins with the stop check
+            polls_after_stop += 1
+            if polls_after_stop >= 2:
+                return ("stop() had completed, the future has been polled since, and is polled again: block_on did not go "
+                        "through its stop check between two polls (a future that keeps waking itself outruns the stop request)")
         if polls > last_polls:
             fready_stored = False
         last_polls = polls
